@@ -66,18 +66,19 @@ type c18PoolSpec struct {
 }
 
 type c18NodeSpec struct {
-	Name            string
-	PoolLabel       string
-	Pool            int // index into pools, -1 = in no pool
-	Unsched         bool
-	CPU, Mem, Pods  int64 // status.allocatable
-	HasRaw          bool  // raw-allocatable annotation present (then thresholds refer to it)
-	RawCPU, RawMem  int64
-	RawPods         int64
-	Kind            string // hot | cold | prodhot | free: which usage level the generator prefers for this node; relapse | alwayshot: scripted (TestVerifC18Relapse)
-	lvl             int    // generator state only
-	capCPU, capMem  int64 // what the thresholds refer to: raw allocatable when annotated, else status.allocatable
-	capPods         int64
+	Name           string
+	PoolLabel      string
+	Pool           int // index into pools, -1 = in no pool
+	Unsched        bool
+	CPU, Mem, Pods int64 // status.allocatable
+	HasRaw         bool  // raw-allocatable annotation present (then thresholds refer to it)
+	RawCPU, RawMem int64
+	RawPods        int64
+	Kind           string // hot | cold | prodhot | free: which usage level the generator prefers for this node; relapse | alwayshot | prodnear: scripted (TestVerifC18Relapse, TestVerifC18ProdShared)
+	lvl            int    // generator state only
+	collide        bool   // generator: may give a non-prod pod the name of a prod pod of another namespace on the node
+	capCPU, capMem int64  // what the thresholds refer to: raw allocatable when annotated, else status.allocatable
+	capPods        int64
 }
 
 type c18PodIn struct {
@@ -423,11 +424,11 @@ func c18GenNodeRound(t *rapid.T, n *c18NodeSpec, round int, pool *c18PoolSpec, m
 	// scripted kinds: "alwayshot" is overloaded in every round; "relapse" is overloaded for ConsecutiveAbnormalities+1 rounds with
 	// (mostly) protected pods so that it stays abnormal, then underused for one round, then overloaded again with evictable pods
 	scripted, protected, noProd := false, false, false
-	if pool.Anom != nil && (n.Kind == "alwayshot" || n.Kind == "relapse") {
+	if n.Kind == "alwayshot" {
+		scripted, n.lvl = true, 2
+	} else if pool.Anom != nil && n.Kind == "relapse" {
 		N := int(pool.Anom.N)
 		switch {
-		case n.Kind == "alwayshot":
-			scripted, n.lvl = true, 2
 		case round <= N:
 			scripted, n.lvl = true, 2
 			protected = c18P(t, lbl+"Protected", 7)
@@ -543,6 +544,43 @@ func c18GenNodeRound(t *rapid.T, n *c18NodeSpec, round int, pool *c18PoolSpec, m
 			}
 		}
 	}
+	// a "prodnear" node is calm at node level and its prod pods stay below the prod high threshold, but together with a non-prod
+	// pod that has the NAME of one of them (in another namespace) they would be above it: 2 prod + 2 non-prod pods with equal
+	// shares of a total between 1.4 and 1.9 times the prod high threshold
+	prodNear := false
+	if n.Kind == "prodnear" && !pool.Deviation && c18P(t, lbl+"ProdNearRound", 6) {
+		for _, r := range []corev1.ResourceName{c18CPU, c18Mem} {
+			pt, ok := pool.ProdThr[r]
+			if !ok || prodNear {
+				continue
+			}
+			capacity, other, otherCap := n.capCPU, c18Mem, n.capMem
+			if r == c18Mem {
+				capacity, other, otherCap = n.capMem, c18CPU, n.capCPU
+			}
+			nodeHighT := capacity
+			if nt, ok := pool.NodeThr[r]; ok {
+				nodeHighT = capacity * int64(nt[1]) / 200
+			}
+			prodHighT := capacity * int64(pt[1]) / 200
+			lo, hi := prodHighT*14/10+16, prodHighT*19/10
+			if hi > nodeHighT {
+				hi = nodeHighT
+			}
+			if prodHighT < 100 || lo > hi {
+				continue
+			}
+			prodNear = true
+			total[r] = c18Between(t, lbl+"ProdNearTotal", lo, hi)
+			total[other] = 0
+			_ = otherCap
+		}
+		if prodNear {
+			prodHeavy, prodLight, prodHot = false, false, false
+			wCPU[0], wMem[0] = 0, 0
+			nPods = 4
+		}
+	}
 	for i := 0; i < nPods; i++ {
 		pl := fmt.Sprintf("%sP%d", lbl, i)
 		p := c18PodIn{
@@ -569,8 +607,18 @@ func c18GenNodeRound(t *rapid.T, n *c18NodeSpec, round int, pool *c18PoolSpec, m
 		if protected {
 			p.EvictorOK = false
 		}
+		if prodNear {
+			p.Prod, p.HasMetric, p.EvictorOK, p.EvictOK = i%2 == 0, true, true, true
+			p.NS = []string{"default", "ns1", "default", "ns1"}[i]
+			if i == 1 {
+				p.Name = nr.Pods[0].Name // same name as the prod pod p0, other namespace
+			}
+		}
 		nr.Pods = append(nr.Pods, p)
-		if p.HasMetric {
+		if prodNear {
+			wCPU = append(wCPU, 5)
+			wMem = append(wMem, 5)
+		} else if p.HasMetric {
 			wCPU = append(wCPU, int64(rapid.IntRange(0, 10).Draw(t, pl+"WCPU")))
 			wMem = append(wMem, int64(rapid.IntRange(0, 10).Draw(t, pl+"WMem")))
 		} else {
@@ -578,7 +626,27 @@ func c18GenNodeRound(t *rapid.T, n *c18NodeSpec, round int, pool *c18PoolSpec, m
 			wMem = append(wMem, 0)
 		}
 	}
-	if !prodHot && c18P(t, lbl+"HasStale", 1) {
+	// same pod name in two namespaces on one node (two tenants both running "web-0"): a non-prod pod takes the name of a prod pod
+	if n.collide && !prodNear && c18P(t, lbl+"Twin", 4) {
+		pi, ni := -1, -1
+		for i, p := range nr.Pods {
+			if p.Prod && pi < 0 {
+				pi = i
+			}
+			if !p.Prod && ni < 0 {
+				ni = i
+			}
+		}
+		if pi >= 0 && ni >= 0 {
+			nr.Pods[ni].Name = nr.Pods[pi].Name
+			if nr.Pods[pi].NS == "default" {
+				nr.Pods[ni].NS = "ns1"
+			} else {
+				nr.Pods[ni].NS = "default"
+			}
+		}
+	}
+	if !prodHot && !prodNear && c18P(t, lbl+"HasStale", 1) {
 		nr.Stale = append(nr.Stale, c18PodIn{NS: "default", Name: fmt.Sprintf("r%d-%s-gone", round, n.Name), HasMetric: true})
 		wCPU = append(wCPU, int64(rapid.IntRange(0, 5).Draw(t, lbl+"StaleWCPU")))
 		wMem = append(wMem, int64(rapid.IntRange(0, 5).Draw(t, lbl+"StaleWMem")))
@@ -872,6 +940,7 @@ const (
 //     in a row certainly not above the threshold, or the balancer itself brought it back under the threshold and went on to the
 //     next candidate pod (the stop-by-usage path resets the detector), or it was certainly underused in a round in which the
 //     balancer certainly got as far as declaring the underused nodes normal. Then a new run of N is required.
+//
 // Resets that the harness cannot be sure of (underused-node reset when it is not certain that the pool had an abnormal node,
 // timeout expiry, the extra normal mark after an eviction round) only make koordinator more conservative than the model.
 type c18Run struct {
@@ -938,13 +1007,14 @@ func (r *c18Run) failure() (string, string) {
 
 // order of the clauses of one level's justification (a later failing clause means the earlier ones held)
 var c18ClauseRank = map[string]int{
-	"source:node-not-overloaded":                        0,
-	"stop:evicted-after-node-back-under-high-threshold": 1,
-	"target:no-underused-node":                          2,
-	"stop:headroom-used-up":                             3,
-	"anomaly:fewer-abnormal-rounds-than-required":       4,
-	"anomaly:abnormal-rounds-not-consecutive":           5,
-	"anomaly:no-new-run-after-return-to-normal":         6,
+	"source:node-not-overloaded":                            0,
+	"stop:evicted-after-node-back-under-high-threshold":     1,
+	"target:no-underused-node":                              2,
+	"stop:headroom-used-up":                                 3,
+	"stop:prod-level-reuses-headroom-used-up-at-node-level": 3,
+	"anomaly:fewer-abnormal-rounds-than-required":           4,
+	"anomaly:abnormal-rounds-not-consecutive":               5,
+	"anomaly:no-new-run-after-return-to-normal":             6,
 }
 
 func c18Sub(a c18Vec, b c18Vec) c18Vec {
@@ -971,15 +1041,22 @@ func c18Silence() {
 // relapse = the scripted shape of TestVerifC18Relapse: one pool with absolute thresholds (mostly without prod thresholds),
 // ConsecutiveAbnormalities 2-3, node n0 "relapse", n1 "alwayshot", n2 "cold"; everything else is generated as usual. The draw
 // sequence of the unscripted tests is unchanged.
-func c18RunCase(t *rapid.T, c *vk.Case, viaConstructor bool, relapse bool) {
+//
+// shape "prodshared" (TestVerifC18ProdShared): one pool with absolute node-level AND prod thresholds, no consecutive-round gating;
+// n0 "alwayshot" (overloaded at node level), n1 "prodhot" (overloaded at prod level only), n2 "cold" (underused at both levels, no
+// prod load), n3 "prodnear"; pods may share a name across namespaces.
+func c18RunCase(t *rapid.T, c *vk.Case, viaConstructor bool, shape string) {
+	relapse, prodShared := shape == "relapse", shape == "prodshared"
 	maxRounds := 8
 	var nNodes int
 	if relapse {
 		nNodes = rapid.IntRange(3, 5).Draw(t, "nodes")
+	} else if prodShared {
+		nNodes = rapid.IntRange(4, 5).Draw(t, "nodes")
 	} else {
 		nNodes = rapid.IntRange(2, 6).Draw(t, "nodes")
 	}
-	twoPools := !relapse && nNodes >= 4 && c18P(t, "twoPools", 2)
+	twoPools := !relapse && !prodShared && nNodes >= 4 && c18P(t, "twoPools", 2)
 	var pools []*c18PoolSpec
 	if relapse {
 		p := c18GenPool(t, "poolAll", "")
@@ -994,6 +1071,26 @@ func c18RunCase(t *rapid.T, c *vk.Case, viaConstructor bool, relapse bool) {
 		}
 		p.Anom = &c18Anom{N: uint32([]int{2, 2, 2, 3}[c18U8(t, "relapseN")%4]), M: uint32([]int{1, 2, 2, 3}[c18U8(t, "relapseM")%4]), Timeout: "1h0m0s"}
 		pools = []*c18PoolSpec{p}
+	} else if prodShared {
+		p := c18GenPool(t, "poolAll", "")
+		p.Deviation = false
+		delete(p.NodeThr, c18Pods)
+		delete(p.ProdThr, c18Pods)
+		if len(p.NodeThr) == 0 {
+			p.NodeThr[c18CPU] = [2]int{2 * 30, 2 * 60}
+			p.ProdThr = map[corev1.ResourceName][2]int{}
+		}
+		if len(p.ProdThr) == 0 {
+			hi := 60
+			if nt, ok := p.NodeThr[c18CPU]; ok {
+				hi = nt[1] / 2
+			}
+			p.ProdThr[c18CPU] = [2]int{hi / 3, hi}
+		}
+		if p.Anom != nil && p.Anom.N > 1 {
+			p.Anom.N = 1
+		}
+		pools = []*c18PoolSpec{p}
 	} else if twoPools {
 		pools = []*c18PoolSpec{c18GenPool(t, "poolA", "a"), c18GenPool(t, "poolB", "b")}
 	} else if c18P(t, "selectorPool", 2) {
@@ -1002,8 +1099,8 @@ func c18RunCase(t *rapid.T, c *vk.Case, viaConstructor bool, relapse bool) {
 		pools = []*c18PoolSpec{c18GenPool(t, "poolAll", "")}
 	}
 	nodes := make([]*c18NodeSpec, nNodes)
-	shaped := relapse || c18P(t, "shaped", 6)
-	metricTrouble := !relapse && c18P(t, "metricTrouble", 3)
+	shaped := relapse || prodShared || c18P(t, "shaped", 6)
+	metricTrouble := !relapse && !prodShared && c18P(t, "metricTrouble", 3)
 	for i := range nodes {
 		n := c18GenNode(t, i)
 		switch {
@@ -1027,6 +1124,15 @@ func c18RunCase(t *rapid.T, c *vk.Case, viaConstructor bool, relapse bool) {
 		}
 		if n.Pool >= 0 && len(pools[n.Pool].ProdThr) > 0 && !pools[n.Pool].Deviation && n.Kind != "cold" && c18P(t, n.Name+"ProdHot", 3) {
 			n.Kind = "prodhot"
+		}
+		if prodShared {
+			n.collide = true
+			if i < 4 {
+				n.Kind = []string{"alwayshot", "prodhot", "cold", "prodnear"}[i]
+			}
+			if i >= 1 {
+				n.Unsched = false
+			}
 		}
 		if relapse && i < 3 {
 			n.Kind = []string{"relapse", "alwayshot", "cold"}[i]
@@ -1066,6 +1172,9 @@ func c18RunCase(t *rapid.T, c *vk.Case, viaConstructor bool, relapse bool) {
 	if relapse {
 		a.DryRun, a.NumberOfNodes = false, 0
 		rounds = int(pools[0].Anom.N) + 3 + c18U8(t, "relapseExtraRounds")%2
+	}
+	if prodShared {
+		a.DryRun, a.NumberOfNodes = false, 0
 	}
 	if maxRounds < rounds {
 		rounds = maxRounds
@@ -1217,9 +1326,10 @@ func c18RunCase(t *rapid.T, c *vk.Case, viaConstructor bool, relapse bool) {
 	var (
 		sawEvict, sawNT, sawHeadroomStop, sawGated, sawAnomEvict, sawProdPhase, sawNodePhase bool
 		sawFilteredLeft, sawAmbiguous, sawNoHigh, sawNoLow, sawUnmeasured, sawUnschedLow     bool
-		sawMultiSource, sawFailedEvict, sawNoMetricEvict                                    bool
-		sawLimitReached, sawBalancerRestart, sawRestart, sawEvictAfterRestart               bool
-		sawUnderusedReset, sawGatedAfterUnderusedReset                                      bool
+		sawMultiSource, sawFailedEvict, sawNoMetricEvict                                     bool
+		sawLimitReached, sawBalancerRestart, sawRestart, sawEvictAfterRestart                bool
+		sawUnderusedReset, sawGatedAfterUnderusedReset                                       bool
+		sawSharedUsedUp, sawProdHotspotAfterUsedUp, sawTwin, sawTwinLifts                    bool
 		totalEvictions                                                                       int
 		ntKey                                                                                []any
 	)
@@ -1323,8 +1433,9 @@ func c18RunCase(t *rapid.T, c *vk.Case, viaConstructor bool, relapse bool) {
 		// upper bounds of the receivable load per pool: sum over every node that may count as underused of (high - usage)
 		headNode := make([]c18Vec, len(pools))
 		headProd := make([]c18Vec, len(pools))
+		headProdOnly := make([]c18Vec, len(pools)) // the part of headProd offered by nodes that are not underused at node level
 		for pi := range pools {
-			headNode[pi], headProd[pi] = c18Vec{}, c18Vec{}
+			headNode[pi], headProd[pi], headProdOnly[pi] = c18Vec{}, c18Vec{}, c18Vec{}
 			anyHigh, anyLow := false, false
 			for _, m := range poolMembers[pi] {
 				if !m.Measured {
@@ -1344,6 +1455,8 @@ func c18RunCase(t *rapid.T, c *vk.Case, viaConstructor bool, relapse bool) {
 				if lowN || lowP {
 					anyLow = true
 				}
+				// prod-only destinations: nodes between the node-level thresholds that are below the prod low thresholds
+				prodOnly := lowP && !c18DefinitelyBelowAll(m.Usage, m.NodeLow, poolRes[pi]) && !c18DefinitelyAbove(m.Usage, m.NodeHigh, poolRes[pi])
 				for _, r := range poolRes[pi] {
 					if lowN {
 						if d := m.NodeHigh[r].Hi - m.Usage[r]; d > 0 {
@@ -1353,6 +1466,9 @@ func c18RunCase(t *rapid.T, c *vk.Case, viaConstructor bool, relapse bool) {
 					if lowP {
 						if d := m.ProdHigh[r].Hi - m.Prod[r]; d > 0 {
 							headProd[pi][r] += d
+							if prodOnly {
+								headProdOnly[pi][r] += d
+							}
 						}
 					}
 				}
@@ -1477,6 +1593,16 @@ func c18RunCase(t *rapid.T, c *vk.Case, viaConstructor bool, relapse bool) {
 				if r, ok := headroomLeft(head, spent); !ok {
 					return "stop:headroom-used-up", fmt.Sprintf("receivable load of the underused nodes %v minus already evicted %v leaves nothing for %s", head, spent, r)
 				}
+				if prod {
+					// nodes underused at both levels are shared: what the node-level evictions of this round already sent there is
+					// gone for the prod level too. Upper bound: prod-only destinations + what is left of the node-level headroom.
+					for _, r := range res {
+						if left := headProdOnly[pi][r] + headNode[pi][r] - spentNode[pi][r] - spentProd[pi][r]; left <= 0 {
+							return "stop:prod-level-reuses-headroom-used-up-at-node-level", fmt.Sprintf("%s: prod-only destinations offer %d, the nodes underused at node level offered %d of which the node-level evictions of this round took %d (prod-level evictions so far %d): nothing is left",
+								r, headProdOnly[pi][r], headNode[pi][r], spentNode[pi][r], spentProd[pi][r])
+						}
+					}
+				}
 				if anomN > 1 {
 					if sig, why := run.failure(); sig != "" {
 						return sig, why
@@ -1543,6 +1669,50 @@ func c18RunCase(t *rapid.T, c *vk.Case, viaConstructor bool, relapse bool) {
 		}
 		if len(sources) > 1 {
 			sawMultiSource = true
+		}
+		// ---- shapes of the shared-headroom clause and of same-named pods
+		for pi := range pools {
+			usedUp := false
+			for _, r := range poolRes[pi] {
+				if spentNode[pi][r] > 0 && headNode[pi][r]-spentNode[pi][r] <= 0 {
+					usedUp = true
+				}
+			}
+			if !usedUp {
+				continue
+			}
+			sawSharedUsedUp = true
+			for _, m := range poolMembers[pi] {
+				if !m.Measured || c18PossiblyAbove(m.Usage, m.NodeHigh, poolRes[pi]) || !c18DefinitelyAbove(m.Prod, m.ProdHigh, poolRes[pi]) {
+					continue
+				}
+				for _, p := range rl.Nodes[m.Spec.Name].Pods {
+					if p.Prod && evictable(p) && !evictedKeys[p.NS+"/"+p.Name] {
+						sawProdHotspotAfterUsedUp = true
+					}
+				}
+			}
+		}
+		for _, n := range nodes {
+			st := states[n.Name]
+			if n.Pool < 0 || !st.Measured {
+				continue
+			}
+			var twin c18Vec
+			for i, p := range rl.Nodes[n.Name].Pods {
+				for j, q := range rl.Nodes[n.Name].Pods {
+					if i != j && p.Prod && !q.Prod && p.Name == q.Name && q.HasMetric {
+						sawTwin = true
+						twin = c18Vec{c18CPU: q.CPU, c18Mem: q.Mem}
+					}
+				}
+			}
+			if twin != nil && !c18PossiblyAbove(st.Prod, st.ProdHigh, poolRes[n.Pool]) {
+				with := c18Vec{c18CPU: st.Prod[c18CPU] + twin[c18CPU], c18Mem: st.Prod[c18Mem] + twin[c18Mem], c18Pods: st.Prod[c18Pods]}
+				if c18DefinitelyAbove(with, st.ProdHigh, poolRes[n.Pool]) && !c18PossiblyAbove(st.Usage, st.NodeHigh, poolRes[n.Pool]) {
+					sawTwinLifts = true
+				}
+			}
 		}
 		// ---- certain underused-node reset: when the pool has a node that is treated as abnormal and an underused node, the
 		// balancer declares every underused node normal before it evicts: a node certainly below all node-level low thresholds (and
@@ -1693,6 +1863,11 @@ func c18RunCase(t *rapid.T, c *vk.Case, viaConstructor bool, relapse bool) {
 	c.ClassIf(sawUnderusedReset, "abnormal-node-reset-because-underused")
 	c.ClassIf(sawGatedAfterUnderusedReset, "overloaded-again-after-underused-reset-not-evicted")
 	c.ClassIf(relapse, "scripted-relapse-shape")
+	c.ClassIf(prodShared, "scripted-prodshared-shape")
+	c.ClassIf(sawSharedUsedUp, "node-level-round-used-up-the-underused-nodes-headroom")
+	c.ClassIf(sawProdHotspotAfterUsedUp, "prod-hotspot-with-evictable-prod-pods-left-after-headroom-used-up")
+	c.ClassIf(sawTwin, "non-prod-pod-named-like-prod-pod-of-other-namespace")
+	c.ClassIf(sawTwinLifts, "prod-usage-below-high-but-above-with-same-named-non-prod-pod")
 	c.ClassIf(sawEvictAfterRestart, "eviction-after-return-to-normal-with-new-run")
 	c.ClassIf(a.DryRun, "dry-run")
 	c.ClassIf(a.NodeFit, "node-fit")
@@ -1734,7 +1909,7 @@ func TestVerifC18Balance(t *testing.T) {
 	rapid.Check(t, func(t *rapid.T) {
 		c := rec.Begin()
 		defer c.End()
-		c18RunCase(t, c, false, false)
+		c18RunCase(t, c, false, "")
 	})
 }
 
@@ -1745,7 +1920,7 @@ func TestVerifC18BalanceViaConstructor(t *testing.T) {
 	rapid.Check(t, func(t *rapid.T) {
 		c := rec.Begin()
 		defer c.End()
-		c18RunCase(t, c, true, false)
+		c18RunCase(t, c, true, "")
 	})
 }
 
@@ -1756,6 +1931,17 @@ func TestVerifC18Relapse(t *testing.T) {
 	rapid.Check(t, func(t *rapid.T) {
 		c := rec.Begin()
 		defer c.End()
-		c18RunCase(t, c, false, true)
+		c18RunCase(t, c, false, "relapse")
+	})
+}
+
+// scripted shape: node-level and prod-level hotspots that share the same underused nodes; same-named pods in two namespaces
+func TestVerifC18ProdShared(t *testing.T) {
+	c18Silence()
+	rec := vk.New(t, "C18", "prodLevelSharedDestinations")
+	rapid.Check(t, func(t *rapid.T) {
+		c := rec.Begin()
+		defer c.End()
+		c18RunCase(t, c, false, "prodshared")
 	})
 }
